@@ -71,6 +71,11 @@ package lastgersync
 //@   ensures[removal-deletes-every-row-of-that-root] (result == nil && event.IsRemove) ==> forall(b, int, gerHas[b] == (old(gerHas)[b] && old(gerRootAt)[b] != event.GlobalExitRoot)) && gerRootAt == old(gerRootAt) && gerIdxAt == old(gerIdxAt)
 //@   ensures[insertion-adds-exactly-this-row] (result == nil && !event.IsRemove) ==> gerHas == upd(old(gerHas), event.BlockNum, true) && gerRootAt == upd(old(gerRootAt), event.BlockNum, event.GlobalExitRoot) && gerIdxAt == upd(old(gerIdxAt), event.BlockNum, event.L1InfoTreeIndex)
 //@   ensures[failure-changes-nothing] result != nil ==> gerHas == old(gerHas) && gerRootAt == old(gerRootAt) && gerIdxAt == old(gerIdxAt)
+// a reorg undoes a block by dropping the rows keyed by it (block row + ON DELETE CASCADE, C04) - so whatever processing a
+// block does to the table must be confined to the row keyed by that block, or the reorg cannot make it "as if the block
+// was never seen". (Known finding F8: a removal deletes the rows of *earlier* blocks; when the removal's block is
+// reorged away the root stays missing although the canonical chain still has it injected.)
+//@   ensures[only-the-row-of-this-block-changes] result == nil ==> forall(b, int, b != event.BlockNum ==> gerHas[b] == old(gerHas)[b])
 
 // ---- one L2 block is applied atomically (C07, C16): committed only if every statement succeeded, rolled back otherwise
 //@ func (p *processor) ProcessBlock
